@@ -29,7 +29,7 @@
     - [MAX_FLOAT = np.finfo(float).max] = (2^53 - 1) * 2^971, written as that product
       (every partial product is exactly representable in binary64, so the [FOps]
       value is the float, and the [ROps]/[QOps] value is its exact rational).  *)
-From Coq Require Import List NArith QArith.
+From Coq Require Import List NArith QArith Bool.
 From D3 Require Import Base.Ops Base.Vec.
 Import ListNotations.
 
@@ -50,13 +50,18 @@ Section Simplex.
 
   Definition trace := list N.
 
-  (** instrumentation only (never influences a result): near tie of two squared distances *)
+  (** instrumentation only (never influences a result): near tie of two squared distances
+      [a = |p|^2], [b = |q|^2] whose comparison may depend on how np.dot rounds.  Not flagged when
+      both points are input vertices (bit sets [sa], [sb] have one bit: the squared norms are then
+      exact on the exact streams) or when both values are zero (both points are the zero vector). *)
   Definition NEAR : F := cst (1 # 1099511627776).                 (* 2^-40 *)
-  Definition near_tie (c : N) (a b : F) : trace :=
-    if abs (a - b) <=? NEAR * fmax (abs a) (abs b) then [c] else [].
-  (** the same, skipped while [best] still is the sentinel MAX_FLOAT *)
-  Definition near_tie_set (c : N) (a best : F) : trace :=
-    if best <? MAX_FLOAT then near_tie c a best else [].
+  Definition one_bit (s : N) : bool := N.eqb s 1 || N.eqb s 2 || N.eqb s 4 || N.eqb s 8.
+  Definition near_tie (c : N) (sa sb : N) (a b : F) : trace :=
+    if (one_bit sa && one_bit sb) || ((a =? zero) && (b =? zero)) then []
+    else if abs (a - b) <=? NEAR * fmax (abs a) (abs b) then [c] else [].
+  (** the same, skipped while no candidate has been recorded yet ([best] is the sentinel MAX_FLOAT) *)
+  Definition near_tie_set (c : N) (recorded : bool) (sa sb : N) (a best : F) : trace :=
+    if recorded then near_tie c sa sb a best else [].
 
   (** lines 291-312 *)
   Definition get_barycentric_coordinates_line_t (a b : V3 F) : F * F * trace :=
@@ -152,14 +157,14 @@ Section Simplex.
       let '(closest_point, best_dist_sq, closest_set, t3) :=
         if dist_sq <? best_dist_sq then
           (q, dist_sq, (N.land new_set 1 + N.shiftl (N.land new_set 2) 1)%N,
-           near_tie 70 dist_sq best_dist_sq ++ [11%N])
-        else (closest_point, best_dist_sq, closest_set, near_tie 70 dist_sq best_dist_sq ++ [12%N]) in
+           near_tie 70 new_set closest_set dist_sq best_dist_sq ++ [11%N])
+        else (closest_point, best_dist_sq, closest_set, near_tie 70 new_set closest_set dist_sq best_dist_sq ++ [12%N]) in
       (* Edge BC *)
       let '(q, new_set, t4) := closest_point_line_t b c in
       let dist_sq := dot q q in
       let '(closest_point, closest_set, t5) :=
-        if dist_sq <? best_dist_sq then (q, N.shiftl new_set 1, near_tie 70 dist_sq best_dist_sq ++ [13%N])
-        else (closest_point, closest_set, near_tie 70 dist_sq best_dist_sq ++ [14%N]) in
+        if dist_sq <? best_dist_sq then (q, N.shiftl new_set 1, near_tie 70 new_set closest_set dist_sq best_dist_sq ++ [13%N])
+        else (closest_point, closest_set, near_tie 70 new_set closest_set dist_sq best_dist_sq ++ [14%N]) in
       (closest_point, closest_set, t0 ++ [10%N] ++ t1 ++ t2 ++ t3 ++ t4 ++ t5)
     else
     (* Check if P in vertex region outside A *)
@@ -232,11 +237,12 @@ Section Simplex.
   Definition origin_outside_of_tetrahedron_planes (a b c d : V3 F) : bool * bool * bool * bool :=
     fst (origin_outside_of_tetrahedron_planes_t a b c d).
 
-  (** lines 573-631 *)
-  Definition closest_point_tetrahedron_t (a b c d : V3 F) : V3 F * N * trace :=
+  (** lines 573-631; [max_float] is the value of the constant MAX_FLOAT (a parameter only so that
+      exhaustive runs in exact arithmetic can evaluate that huge number once) *)
+  Definition closest_point_tetrahedron_t_with (max_float : F) (a b c d : V3 F) : V3 F * N * trace :=
     let closest_set := 15%N in
     let closest_point := vzero in
-    let best_dist_sq := MAX_FLOAT in
+    let best_dist_sq := max_float in
     let '(oop0, oop1, oop2, oop3, tp) := origin_outside_of_tetrahedron_planes_t a b c d in
     (* face abc *)
     let '(closest_point, closest_set, best_dist_sq, t0) :=
@@ -249,8 +255,8 @@ Section Simplex.
         let '(q, new_set, tr) := closest_point_triangle_t a c d in
         let dist_sq := dot q q in
         if dist_sq <? best_dist_sq then
-          (q, (N.land new_set 1 + N.shiftl (N.land new_set 6) 1)%N, dist_sq, [41%N] ++ tr ++ near_tie_set 71 dist_sq best_dist_sq ++ [51%N])
-        else (closest_point, closest_set, best_dist_sq, [41%N] ++ tr ++ near_tie_set 71 dist_sq best_dist_sq ++ [55%N])
+          (q, (N.land new_set 1 + N.shiftl (N.land new_set 6) 1)%N, dist_sq, [41%N] ++ tr ++ near_tie_set 71 oop0 new_set closest_set dist_sq best_dist_sq ++ [51%N])
+        else (closest_point, closest_set, best_dist_sq, [41%N] ++ tr ++ near_tie_set 71 oop0 new_set closest_set dist_sq best_dist_sq ++ [55%N])
       else (closest_point, closest_set, best_dist_sq, [45%N]) in
     (* face adb *)
     let '(closest_point, closest_set, best_dist_sq, t2) :=
@@ -259,8 +265,8 @@ Section Simplex.
         let dist_sq := dot q q in
         if dist_sq <? best_dist_sq then
           (q, (N.land new_set 1 + N.shiftl (N.land new_set 2) 2 + N.shiftr (N.land new_set 4) 1)%N,
-           dist_sq, [42%N] ++ tr ++ near_tie_set 71 dist_sq best_dist_sq ++ [52%N])
-        else (closest_point, closest_set, best_dist_sq, [42%N] ++ tr ++ near_tie_set 71 dist_sq best_dist_sq ++ [56%N])
+           dist_sq, [42%N] ++ tr ++ near_tie_set 71 (oop0 || oop1) new_set closest_set dist_sq best_dist_sq ++ [52%N])
+        else (closest_point, closest_set, best_dist_sq, [42%N] ++ tr ++ near_tie_set 71 (oop0 || oop1) new_set closest_set dist_sq best_dist_sq ++ [56%N])
       else (closest_point, closest_set, best_dist_sq, [46%N]) in
     (* face bdc *)
     let '(closest_point, closest_set, t3) :=
@@ -269,10 +275,12 @@ Section Simplex.
         let dist_sq := dot q q in
         if dist_sq <? best_dist_sq then
           (q, (N.shiftl (N.land new_set 1) 1 + N.shiftl (N.land new_set 2) 2 + N.land new_set 4)%N,
-           [43%N] ++ tr ++ near_tie_set 71 dist_sq best_dist_sq ++ [53%N])
-        else (closest_point, closest_set, [43%N] ++ tr ++ near_tie_set 71 dist_sq best_dist_sq ++ [57%N])
+           [43%N] ++ tr ++ near_tie_set 71 (oop0 || oop1 || oop2) new_set closest_set dist_sq best_dist_sq ++ [53%N])
+        else (closest_point, closest_set, [43%N] ++ tr ++ near_tie_set 71 (oop0 || oop1 || oop2) new_set closest_set dist_sq best_dist_sq ++ [57%N])
       else (closest_point, closest_set, [47%N]) in
     (closest_point, closest_set, tp ++ t0 ++ t1 ++ t2 ++ t3).
+  Definition closest_point_tetrahedron_t (a b c d : V3 F) : V3 F * N * trace :=
+    closest_point_tetrahedron_t_with MAX_FLOAT a b c d.
   Definition closest_point_tetrahedron (a b c d : V3 F) : V3 F * N :=
     fst (closest_point_tetrahedron_t a b c d).
 
